@@ -18,6 +18,7 @@ func refDomainRule(email, d string) bool {
 	return vOr(exact, dot, star)
 }
 
+// isEmailValidWithDomains equals the documented last-'@' domain rule
 // verif: unwind=6 concretize=4 tstrlen=12
 func vh_C08_email() {
 	email := ndString("email")
